@@ -40,7 +40,7 @@ PRE = [[], ["out.h5"], ["out.h5", "out-1.h5"], ["out-1.h5"], ["out.h5.tmp"], ["o
 def budget(tier):
     if tier == "quick":
         return dict(max_examples=0, workers=8, time_s=170, min_cases=300)
-    return dict(max_examples=0, workers=16, time_s=1200, min_cases=1500)
+    return dict(max_examples=0, workers=16, time_s=1200, min_cases=600)
 
 
 def grid(tier):
